@@ -1437,6 +1437,33 @@ class _VerticalOrbitCorrectionService(_OrbitCorrectionService):
     def __init__(self, orbit: "VerticalOrbit") -> None:
         super().__init__(orbit)
 
+    @property
+    def corrector(self) -> CorrectorPipeline:
+        """The corrector.
+
+        The vertical family is doubly symmetric: the orbit starts perpendicular to the
+        xz-plane and the z=0 event is a perpendicular crossing of the x-axis, which
+        happens after a *quarter* of the period. The interface therefore reports twice
+        the event time as half-period.
+        """
+        if self._corrector is None:
+            from hiten.algorithms.corrector.backends.newton import \
+                _NewtonBackend
+            from hiten.algorithms.corrector.interfaces import \
+                _OrbitCorrectionInterface
+            from hiten.algorithms.corrector.stepping import make_armijo_stepper
+
+            class _QuarterPeriodInterface(_OrbitCorrectionInterface):
+                def _half_period(self, domain_obj, corrected_state, problem) -> float:
+                    return 2.0 * super()._half_period(domain_obj, corrected_state, problem)
+
+            self._corrector = CorrectorPipeline.with_default_engine(
+                config=self.correction_config,
+                interface=_QuarterPeriodInterface(),
+                backend=_NewtonBackend(stepper_factory=make_armijo_stepper()),
+            )
+        return self._corrector
+
     def _default_correction_config(self) -> "OrbitCorrectionConfig":
         """Create the default correction configuration for Vertical orbits.
         
@@ -1450,7 +1477,7 @@ class _VerticalOrbitCorrectionService(_OrbitCorrectionService):
                                                     NumericalConfig)
         return OrbitCorrectionConfig(
             residual_indices=(SynodicState.VX, SynodicState.Y),     # Want VX=0 and Y=0
-            control_indices=(SynodicState.VZ, SynodicState.VY),     # Adjust initial VZ and VY
+            control_indices=(SynodicState.X, SynodicState.VY),      # Adjust initial X and VY (keeps VZ=0: perpendicular start)
             target=(0.0, 0.0),
             extra_jacobian=None,
             event_func=_z_plane_crossing,
